@@ -574,8 +574,8 @@ theorem runE_refines_run (S : Ops K) (X : Ext K) (m : Meta) (l : List Stage) (x 
    fun out h => exec_ok_cases S X m _ _ out h⟩
 
 /-- **`runE_equivariant`** — for any stage list that passes the static check: the refined run on `c·x` is the
-refined run on `x` mapped through the scaling.  In particular the `IndexError` (no coil of the scaling tensor has
-a non-zero sum) is raised for `c·x` exactly when it is raised for `x`, for the same key; it is the *only* error a
+refined run on `x` mapped through the scaling.  In particular the `IndexError` (the scaling tensor is identically
+zero) is raised for `c·x` exactly when it is raised for `x`, for the same key; it is the *only* error a
 well-typed pipeline has. -/
 theorem runE_equivariant {sqrt : K → K} (hs : SqrtHom sqrt) {X : Ext K} (hX : ExtHom X) (m : Meta)
     (ssl : Bool) (l : List Stage) (hl : degreesOk ssl l = true) (c : K) (hc : 0 < c) (x : Val K) :
@@ -601,9 +601,9 @@ theorem runE_equivariant {sqrt : K → K} (hs : SqrtHom sqrt) {X : Ext K} (hX : 
         rw [h2] at this
         cases this
 
-/-- the error branch is inhabited and is what the percentile does on an all-zero sample — and on a sample whose
-only coil has entries that *cancel* (`data[_].sum(...).bool()` is the code's non-zero test); with the maximum
-instead of the percentile the same samples go through (scaling factor 0, all outputs 0 by the safe division) -/
+/-- the error branch is inhabited and is what the percentile does on an all-zero sample (a coil whose entries merely
+*cancel* goes through since the repair of the coil test); with the maximum instead of the percentile the all-zero
+sample goes through too (scaling factor 0, all outputs 0 by the safe division) -/
 def intOps : Ops Int where
   zero := 0
   one := 1
@@ -627,7 +627,15 @@ def intExt : Ext Int where
   espirit := fun v => v
 
 example : isIndexError (runE intOps intExt ⟨[], []⟩ (build {}) ⟨1, 1, true, [0, 0, 0, 0]⟩) = true := by decide
-example : isIndexError (runE intOps intExt ⟨[], []⟩ (build {}) ⟨1, 1, true, [3, -3, 4, -4]⟩) = true := by decide
+example : isOk (runE intOps intExt ⟨[], []⟩ (build {}) ⟨1, 1, true, [3, -3, 4, -4]⟩) = true := by decide
+
+/-- **`coil_selection_pinned_violates`** — the pinned (pre-repair) coil test `data[_].sum(...).bool()` drops a coil
+whose entries cancel: for the one-coil sample `[3 − 3i, 4 − 4i]` nothing is left and `torch.kthvalue` raised
+`IndexError` on a non-zero k-space; the repaired test `(data[_] != 0).any()` keeps the coil.  (With PadKspace and
+un-centred operators the sum is *theoretically* zero, so float32 noise decided: repro in the evidence notes.) -/
+theorem coil_selection_pinned_violates :
+    (kthSelectionPinned intOps ⟨1, 1, true, [3, -3, 4, -4]⟩).isEmpty = true
+    ∧ (kthSelection intOps ⟨1, 1, true, [3, -3, 4, -4]⟩).isEmpty = false := by decide
 example : isOk (runE intOps intExt ⟨[], []⟩ (build { percentile := false }) ⟨1, 1, true, [0, 0, 0, 0]⟩) = true := by decide
 example : isOk (runE intOps intExt ⟨[], []⟩ (build {}) ⟨1, 1, true, [3, 0, 0, 4]⟩) = true := by decide
 example : isIndexError (runE intOps intExt ⟨[], []⟩ (buildPrePost {}) ⟨2, 1, true, [0, 0, 0, 0]⟩) = true := by decide
